@@ -37,7 +37,7 @@ ASSUMPTIONS = [
     "models are built from hand-written parameters (BaseModel.load) and then fitted / personalised / simulated",
     "prior activities use OTHER model objects (what a fit leaves inside the same model object is C13's subject)",
     "personalize / simulate ignore the output manager by design: their logging grid is the 2-valued one "
-    "(a 13-configuration diagonal for scipy_minimize) instead of the full product",
+    "(a 15-configuration diagonal for scipy_minimize) instead of the full product",
     "full logging product at seed 0 only (thorough); the other seeds use the 2-valued grid",
     "matplotlib Agg backend; pool workers and reference interpreters run under PYTHONHASHSEED=0; other hash seeds only in "
     "the dedicated new-interpreter comparison",
@@ -64,9 +64,20 @@ def seed_alphabet(seed):
 # ------------------------------------------------------------------------------------------
 # logging configurations
 
-def _log(pr, sv, pl, pt, sw, path):
+def _log(pr, sv, pl, pt, sw, path, nb=None):
     return {"print_periodicity": pr, "save_periodicity": sv, "plot_periodicity": pl, "plot_patient_periodicity": pt,
-            "plot_sourcewise": sw, "path": path}
+            "plot_sourcewise": sw, "path": path, "nb_of_patients_to_plot": nb}
+
+
+def _with_nb(grid, values):
+    """nb_of_patients_to_plot (default 5 = the whole 5-individual cohort) crossed with every configuration asking for patient
+    plots: with 1 or 2 the cohort is larger than the plotted subset."""
+    out = []
+    for g in grid:
+        out.append(g)
+        if g["plot_patient_periodicity"]:
+            out += [dict(g, nb_of_patients_to_plot=nb) for nb in values]
+    return out
 
 
 def n_active(log):
@@ -78,12 +89,16 @@ def log_grid(level):
     if level == "full":
         grid = [_log(*c) for c in itertools.product((None, 1, 3), (None, 1, 2), (None, 2, 3), (None, 2), (False, True),
                                                     L.PATH_MODES)]
+        grid = _with_nb(grid, (1, 2)) + [_log(None, None, None, None, False, "absent", 2), _log(None, 1, None, None, False, "fresh", 1)]
     elif level == "two":
         grid = [_log(*c) for c in itertools.product((None, 1), (None, 1), (None, 2), (None, 2), (False, True),
                                                     ("absent", "fresh"))]
         for path in ("existing_overwrite", "existing_empty", "existing_nonempty"):
             grid.append(_log(None, 1, None, None, False, path))
             grid.append(_log(1, 1, 2, 2, True, path))
+        # (the convergence plot does not look at nb_of_patients_to_plot: in this grid it is crossed with the other options only)
+        grid = [g for g in grid if g["plot_periodicity"]] + _with_nb([g for g in grid if not g["plot_periodicity"]], (2,)) \
+            + [_log(None, None, None, None, False, "absent", 2)]
     elif level == "diag":  # every option alone (with an output folder), all together, the path modes
         grid = [
             _log(None, None, None, None, False, "absent"),
@@ -96,8 +111,10 @@ def log_grid(level):
             _log(None, 1, None, None, False, "fresh"),
             _log(None, None, 2, None, False, "fresh"),
             _log(None, None, None, 2, False, "fresh"),
+            _log(None, None, None, 2, False, "fresh", 2),
+            _log(None, None, None, None, False, "absent", 2),
             _log(None, 1, 2, None, False, "fresh"),
-            _log(3, 1, 3, 2, True, "existing_overwrite"),
+            _log(3, 1, 3, 2, True, "existing_overwrite", 1),
             _log(None, 1, None, None, False, "existing_nonempty"),
         ]
     else:
@@ -138,8 +155,8 @@ def chunk(items, cost, budget):
 
 
 def self_check():
-    assert len(log_grid("full")) == 540 and len(log_grid("two")) == 70 and len(log_grid("diag")) == 13
-    assert len({json.dumps(g, sort_keys=True) for g in log_grid("full")}) == 540
+    assert len(log_grid("full")) == 540 + 2 * 270 + 2 and len(log_grid("two")) == 70 + 16 + 1 and len(log_grid("diag")) == 15
+    assert len({json.dumps(g, sort_keys=True) for g in log_grid("full")}) == len(log_grid("full"))
     assert n_active(log_grid("full")[0]) == 0  # simplest first
 
 
@@ -150,16 +167,19 @@ def bounds(tier):
     common = {
         "algorithms": L.ALGOS, "models": {k: f"{v['kind']} dim {v['dim']} sources {v['ns']}" for k, v in L.MODELS.items()},
         "seeds": "{0, 1, VERIF_SEED}", "n_iter": L.N_ITER, "prior activities": list(L.PRIORS),
+        "cohorts": "5 individuals; fits also on 7 individuals (more than the default nb_of_patients_to_plot) x 4 logging configurations",
         "hash seeds of new interpreters": HASHSEEDS,
         "logging alphabets": "print {None,1,3} x save {None,1,2} x plot {None,2,3} x patient plots {None,2} x sourcewise {F,T} x "
-                             "path {absent, fresh, existing+overwrite, existing empty, existing non-empty} = 540 (full); "
-                             "2-valued grid = 64 + 6 path-mode extras; diagonal = 13",
+                             "path {absent, fresh, existing+overwrite, existing empty, existing non-empty} = 540 (full), every patient-plot "
+                             "configuration also with nb_of_patients_to_plot in {1, 2} (1082 in all); "
+                             "2-valued grid = 64 + 6 path-mode extras, patient-plot ones without convergence plot also with nb_of_patients_to_plot = 2 (87); "
+                             "diagonal = 15",
     }
     if tier == "quick":
         common.update({
             "logging grid": "fit(Gibbs) on the logistic model: 2-valued grid at seed 0 (set_logs route); diagonal for every other "
                             "(algorithm, model) and for the keyword route of fit(Gibbs) at VERIF_SEED",
-            "histories": "9 prior activities x 3 seeds x {no logging, print+save} (scipy_minimize: 5 activities, seed 0, no logging)",
+            "histories": "9 prior activities x 3 seeds x {no logging, print+save} (scipy_minimize: 6 activities, seed 0, no logging)",
             "interpreters": "every (algorithm, model) at seed 0 under 5 hash seeds (3 groups of pairs, one interpreter per group and hash seed)",
         })
     else:
@@ -174,6 +194,8 @@ def bounds(tier):
 
 
 PRIOR_RUNS = {"fit_other": ("fit_gibbs", CHEAP_LOG), "personalize_other": ("pers_mean", None)}
+# patient plots on the 7-individual cohort (more individuals than the default nb_of_patients_to_plot = 5)
+COHORT7_LOGS = [None, _log(None, None, None, 2, False, "fresh"), _log(1, 1, None, 1, False, "fresh"), _log(None, 2, 2, 2, True, "fresh", 3)]
 
 
 def case_cost(case):
@@ -185,6 +207,8 @@ def case_cost(case):
         c *= 2
     elif prior in ("same_other_seed", "same_settings"):
         c += log_cost(case["algo"], None)
+    elif prior == "custom_options":
+        c += log_cost(case["algo"], None) * len(L.custom_options_for(case["algo"]))
     elif prior in PRIOR_RUNS:
         c += 0.5
     return c
@@ -223,7 +247,7 @@ def shards(tier, seed):
         for model in L.MODELS:
             fit = algo in L.FIT_SAMPLERS
             if algo == "pers_scipy" and quick:
-                cases = hist(algo, model, [0], [None], ["nothing", "rng7", "fit_other", "dtype_flip", "same_case"])
+                cases = hist(algo, model, [0], [None], ["nothing", "rng7", "fit_other", "dtype_flip", "same_case", "custom_options"])
             else:
                 logs = [None, CHEAP_LOG] + ([PLOT_LOG] if fit and not quick else [])
                 cases = hist(algo, model, seeds, logs, list(L.PRIORS))
@@ -251,6 +275,10 @@ def shards(tier, seed):
                     cases += grid(s, level, "settings")
                 cases += grid(0, "diag", "kwargs")
             todo += [dict(c, algo=algo, model=model) for c in cases]
+            if fit:
+                ss = [0] if quick else seeds
+                todo += [{"seed": s_, "log": g, "route": "settings", "prior": "nothing", "algo": algo, "model": model, "cohort": 7}
+                         for s_ in ss for g in (COHORT7_LOGS[:3] if quick else COHORT7_LOGS)]
         emit(algo, todo)
     return out
 
@@ -295,6 +323,7 @@ PRIOR_CLASS = {
     "fit_other": "after another run in the same interpreter", "personalize_other": "after another run in the same interpreter",
     "same_case": "after another run in the same interpreter", "same_other_seed": "after another run in the same interpreter",
     "same_settings": "after another run in the same interpreter",
+    "custom_options": "after the same algorithm run with non-default nested options",
 }
 PLAIN = "same call in another interpreter"
 
@@ -355,12 +384,12 @@ def reference_for(cases_keys):
     for k in cases_keys:
         if k not in keys:
             keys.append(k)
-    res = L.run_in_new_interpreter([{"algo": a, "model": m, "seed": s} for (a, m, s) in keys], hashseed=0)
+    res = L.run_in_new_interpreter([{"algo": a, "model": m, "seed": s, "cohort": n} for (a, m, s, n) in keys], hashseed=0)
     return dict(zip(keys, res))
 
 
 def case_key(case):
-    return json.dumps({k: case.get(k) for k in ("algo", "model", "seed", "log", "route", "prior", "hashseed", "interp")},
+    return json.dumps({k: case.get(k) for k in ("algo", "model", "seed", "log", "route", "prior", "hashseed", "interp", "cohort")},
                       sort_keys=True)
 
 
@@ -393,7 +422,14 @@ def _run_and_judge(acc, case, ref, baseline_differs=False):
 
 
 def plain_case(c):
-    return {"algo": c["algo"], "model": c["model"], "seed": c["seed"], "log": None, "route": "settings", "prior": "nothing"}
+    p = {"algo": c["algo"], "model": c["model"], "seed": c["seed"], "log": None, "route": "settings", "prior": "nothing"}
+    if "cohort" in c:
+        p["cohort"] = c["cohort"]
+    return p
+
+
+def ref_key(c):
+    return (c["algo"], c["model"], c["seed"], c.get("cohort", 5))
 
 
 NOT_CONVERGED = "LeaspyConvergenceError"
@@ -465,12 +501,12 @@ def run_shard(shard):
         if shard["kind"] == "interp":
             run_interp(acc, shard)
         elif shard["kind"] == "cases":
-            keys = [(c["algo"], c["model"], c["seed"]) for c in shard["cases"]]
+            keys = [ref_key(c) for c in shard["cases"]]
             refs = reference_for(keys)
             acc.evaluation(len(refs))
             differs = {}
             for c in shard["cases"]:
-                key = (c["algo"], c["model"], c["seed"])
+                key = ref_key(c)
                 if key not in differs:  # the plain call in THIS interpreter first
                     differs[key] = not same_observation(_run_and_judge(acc, plain_case(c), refs[key]), refs[key])
                     if c == plain_case(c):
@@ -513,7 +549,7 @@ def replay(case):
         cleanup()
         return out
     c = {k: v for k, v in case.items() if k != "check"}
-    key = (c["algo"], c["model"], c["seed"])
+    key = ref_key(c)
     ref = reference_for([key])[key]
     differs = False
     if c != plain_case(c) and c.get("interp") is None:
